@@ -1071,6 +1071,9 @@ fn tie(n: usize, seed: u64) {
         if args.iter().any(has_map_deep) {
             continue;
         }
+        if name == "CCouple" && std::mem::discriminant(&args[0]) != std::mem::discriminant(&args[1]) {
+            continue;
+        }
         // stack order: last pushed = top
         let pushed: Vec<Value> = args.iter().rev().cloned().collect();
         let out = run_prog(src, &pushed).stack;
